@@ -55,9 +55,17 @@ def run(ctx):
         else:
             vlib.write_ndjson(one, [row])
         s1 = vlib.harness(b, "hdr-run", "--table", one, "--out", os.path.join(d, "mm1.ndjson"))
+        replay_rows = [row] if row != "non-magic" else [rows[0]]
         if s1["mismatches"] == 0:
-            raise vlib.MachineryFault("header mismatch not reproducible: %s" % json.dumps(m)[:300])
-        ctx.violation(key, "header acceptance differs from C19's rule: %s" % key, {"kind": "hdr", "row": row, "observed": m})
+            # the deviation may depend on what the reused Reader saw before (Reset): re-execute the whole table
+            mm2 = os.path.join(d, "mm2.ndjson")
+            vlib.harness(b, "hdr-run", "--table", tp, "--out", mm2, timeout=3000)
+            if not any(x["row"] == row and x["hc"] == m["hc"] for x in vlib.read_ndjson(mm2)):
+                raise vlib.MachineryFault("header mismatch not reproducible: %s" % json.dumps(m)[:300])
+            replay_rows = rows
+            key += ":history-dependent"
+        ctx.violation(key, "header acceptance differs from C19's rule: %s" % key,
+                      {"kind": "hdr", "row": row, "observed": m, "table": replay_rows if len(replay_rows) < 50 else "full table of the run (seed %d, tier %s)" % (ctx.seed, ctx.tier)})
     acc, rej = vlib.validate_trace(ctx, "LZ4Frame_Trace", tr, cfg="LZ4Frame_Trace_C19", timeout=1800)
     ctx.sample({"recorded_hdr_event": json.loads(open(tr).readline())})
     for rj in rej:
